@@ -50,7 +50,7 @@ pub mod c01_exec;
 pub mod c19_builder;
 #[cfg(all(feature = "pushvm", feature = "thorough"))]
 pub mod c01_dispatch;
-#[cfg(all(feature = "pushvm", feature = "thorough"))]
+#[cfg(feature = "pushvm")]
 pub mod c01_loop;
 #[cfg(feature = "c04")]
 pub mod c04_stack;
